@@ -109,9 +109,11 @@ def judge (prop : String) (j : Json) : R Verdict := do
   | .error e, false =>
     let oe ← str oerr
     let me := match e with | .tooBroad => "tooBroad" | .notResolved n => "notResolved:" ++ n
-    -- which block fails may depend on the oracle when several blocks compete; compare the class
-    if (oe.takeWhile (· != ':')) != (me.takeWhile (· != ':')) then corr := corr ++ ["error-class"]
-    if qs.length == 1 && oe != me then corr := corr ++ ["error-name"]
+    -- with several blocks, which block fails first (and hence with which error) depends on what
+    -- the earlier blocks happened to take, i.e. on the oracle: only single-block cases are compared
+    if qs.length == 1 && oe != me then corr := corr ++ ["error-class"]
+    if qs.length > 1 && (oe.takeWhile (· != ':')) != (me.takeWhile (· != ':')) then
+      tags := tags ++ ["oracle-dependent-error"]
     tags := tags ++ ["err:" ++ (me.takeWhile (· != ':')).toString]
   | .error _, true =>
     -- success/failure of a single block does not depend on the oracle within the window
